@@ -251,7 +251,7 @@ def main():
     allbad = {}
     for sname, start in starts:
         for L in range(1, depth + 2):
-            if L == depth + 1 and not thorough and sname != "dict 2x2": continue
+            if L == depth + 1 and not thorough and sname not in ("dict 2x2", "file 3x2"): continue
             name = "%s, %d ops" % (sname, L)
             outs = harness.par_paths(ck, make_run(CF, start, L, None), on_path, depth=1 if L > 1 else 1, timeout_ms=20000)
             ck.path(None, n=len(outs))
